@@ -495,6 +495,29 @@ func suiteC12(c *Ctx) []Suite {
 			}
 			return out
 		}},
+		{Name: "ctor/control-messages", Gen: func(c *Ctx) []Case {
+			// the control-message constructors keep what they were given (the header, the system
+			// bytes) and nothing of the caller's memory: the arguments are overwritten after the call
+			var out []Case
+			for i := 0; i < c.N(300); i++ {
+				hdr := make([]byte, pick(c.R, 10, 10, 10, 10, 0, 3, 9))
+				c.R.Read(hdr)
+				sys := make([]byte, pick(c.R, 4, 4, 4, 0, 2, 6))
+				c.R.Read(sys)
+				sid := c.R.Intn(65536)
+				op := []string{
+					"ctrl raw " + hx(hdr),
+					fmt.Sprintf("ctrl selectreq %d %s", sid, hx(sys)),
+					fmt.Sprintf("ctrl deselectreq %d %s", sid, hx(sys)),
+					"ctrl linktestreq " + hx(sys),
+					fmt.Sprintf("ctrl separatereq %d %s", sid, hx(sys)),
+					fmt.Sprintf("ctrl rejectreq %d %d %d %s %d", sid, c.R.Intn(256), c.R.Intn(256), hx(sys), c.R.Intn(256)),
+				}[c.R.Intn(6)]
+				out = append(out, Case{Op: op, Decisive: true, Nontrivial: true, Tags: []string{"ctrl-ctor"}})
+			}
+			return out
+		}},
+		{Name: "ctor/ellipsis-count-types", Gen: func(c *Ctx) []Case { return ellipsisCases(c, c.N(600), 2, 3) }},
 		{Name: "ctor/message-setters", Gen: func(c *Ctx) []Case {
 			// the setters are constructors too: a wait bit on an even function, a session id
 			// outside 16 bits are refused exactly as NewDataMessage / NewHSMSDataMessage refuse them
@@ -709,7 +732,7 @@ func suiteC16(c *Ctx) []Suite {
 						}
 						res := implEval(op)
 						cs := Case{Op: op, Impl: res, Decisive: true, Nontrivial: true, Tags: []string{"float-edge"}}.fields(itemKeys)
-						if res != "PANIC" && project(res, "vars") == "vars=-" && project(res, "bytes") == "bytes=" {
+						if b := project(res, "bytes"); res != "PANIC" && project(res, "vars") == "vars=-" && (b == "bytes=" || b == "bytes=-") {
 							cs.Oracle = "a float item without variables encodes to no bytes"
 						}
 						out = append(out, cs)
@@ -801,6 +824,46 @@ func suiteC16(c *Ctx) []Suite {
 					op := fmt.Sprintf("mprog %s | %s | wait 1", m.newStep(), m.sessSteps(c.R))
 					out = append(out, Case{Op: op, Decisive: true, Nontrivial: true, Tags: []string{"msg-bare-variable"}}.fields("vars bytes"))
 				}
+			}
+			return out
+		}},
+		{Name: "vars/messages-after-fill", Gen: func(c *Ctx) []Case {
+			// a template message that was looked at (variables, bytes) and is then filled in one or
+			// two steps: the filled message lists what is left and encodes once nothing is
+			var out []Case
+			for i := 0; i < c.N(500); i++ {
+				names := &nameGen{}
+				tmpl := genNode(c.R, &GenOpt{MaxDepth: 3, MaxSlots: 4, PVar: 0.4, names: names}, 0)
+				var vars []varRef
+				collectVars(tmpl, &vars)
+				if len(vars) == 0 {
+					continue
+				}
+				asg := map[string]FillVal{}
+				var keys []string
+				for _, v := range vars {
+					fv := genFillVal(c.R, v.node, 0, names)
+					for len(fv.Open) > 0 {
+						fv = genFillVal(c.R, v.node, 0, names)
+					}
+					asg[v.name] = fv
+					keys = append(keys, v.name)
+				}
+				m := completeMsgDesc(c.R, tmpl)
+				m.HSMS = false
+				half := 1 + c.R.Intn(len(keys))
+				steps := []string{m.newStep(), m.sessSteps(c.R), "fill " + envTokens(asg, keys[:half])}
+				if half < len(keys) {
+					steps = append(steps, "fill "+envTokens(asg, keys[half:]))
+				}
+				op := "mprog " + strings.Join(steps, " | ")
+				impl := implEval(op)
+				cs := Case{Op: op, Impl: impl, Decisive: true, Nontrivial: true, Tags: []string{"msg-after-fill"}}.fields("vars bytes")
+				last := lastField(impl)
+				if b := project(last, "bytes"); last != "PANIC" && (project(last, "vars") == "vars=-") != (b != "bytes=" && b != "bytes=-") {
+					cs.Oracle = "after the fills: " + project(last, "vars") + " but " + project(last, "bytes")[:imin(30, len(project(last, "bytes")))]
+				}
+				out = append(out, cs)
 			}
 			return out
 		}},
